@@ -49,7 +49,9 @@ PROPS = {
                        gen_cfg=ORACLE_GEN_CFG,
                        assumptions=["TLC 1.8, SANY, CommunityModules Json", "Go toolchain, strconv float formatting",
                                     "harness projection functions (keeper getters + raw prefix scans of the oracle store)",
-                                    "values driven within +-3.4 with 8 decimals (units of 10^-8 below 2^31)"]),
+                                    "TLC tier: values within +-3.4 with 8 decimals (units of 10^-8 below 2^31); magnitude tier "
+                                    "(zz_big.oracle_big): stored values of the real chain up to 2^129 judged by Apalache/Z3 with "
+                                    "the operators of OracleClauses.tla, average up to float64 summation error"]),
 }
 
 TEXT = {
